@@ -4,7 +4,7 @@ from hypothesis import strategies as st
 from harness import specs
 from harness.elements import E, Log, canon, show
 from harness.model import ModelGraph
-from harness.runner import Part, Result
+from harness.runner import Part, Result, fuzz_part as runner_fuzz_part
 from harness.vloop import install
 
 ID = "C01"
@@ -179,4 +179,6 @@ def threaded_strategy(draw, tier="quick"):
 
 PARTS = [Part("pipelines", case_strategy, execute, quick=2400, thorough=12000),
          Part("threaded", threaded_strategy, execute, quick=120, thorough=600, shards=4,
-              quick_shards=2)]
+              quick_shards=2),
+         Part("coverage-guided:pipelines", None, execute, quick=0, thorough=0, shards=1,
+              exhaustive=runner_fuzz_part(ID, "pipelines"))]
